@@ -155,9 +155,13 @@ Inductive js_announced := AnnUtf16BE | AnnUtf16LE | AnnUtf8 | AnnNone.
 
 Definition announced_encoding (s : list N) : js_announced * list N :=
   match s with
-  | 254 :: 255 :: t => (AnnUtf16BE, t)
-  | 255 :: 254 :: t => (AnnUtf16LE, t)
-  | 239 :: 187 :: 191 :: t => (AnnUtf8, t)
+  | a :: b :: t =>
+    if (a =? 254) && (b =? 255) then (AnnUtf16BE, t)            (* FE FF *)
+    else if (a =? 255) && (b =? 254) then (AnnUtf16LE, t)       (* FF FE *)
+    else match t with
+         | c :: t' => if (a =? 239) && (b =? 187) && (c =? 191) then (AnnUtf8, t') else (AnnNone, s)   (* EF BB BF *)
+         | [] => (AnnNone, s)
+         end
   | _ => (AnnNone, s)
   end.
 
